@@ -7,7 +7,8 @@
    what Decoder.Bytes makes of the whole body.  [respond ... = (o, EEOF)] reads: the caller, reading
    with buffers of the given sizes, reached io.EOF and received o in total. *)
 From ReqV Require Import Lib.Bytes Model.Charset Model.CharsetFind Proofs.CharsetProofs Proofs.CharsetTermination
-     Proofs.CharsetFindProofs Proofs.CharsetPinned Proofs.CharsetToyStream Proofs.CharsetInterleave.
+     Proofs.CharsetFindProofs Proofs.CharsetPinned Proofs.CharsetToyStream Proofs.CharsetInterleave
+     Model.CharsetConfig Proofs.CharsetConfigProofs Proofs.CharsetConfigPins Gen.DecodeSetters.
 
 (* for every body, every split into network reads, every sequence of caller buffer sizes and every
    hand-out schedule of the x/text reader: the delivered body is the original bytes or the
@@ -328,6 +329,51 @@ Theorem C15_interleaved_reader_is_the_single_reader :
     map (fun x => (fst (fst x), snd (fst x))) (run dec_stream dec_partial find_encoding (sizes_of i sched) (f i)).
 Proof. exact interleaved_reader_is_the_single_reader. Qed.
 Print Assumptions C15_interleaved_reader_is_the_single_reader.
+
+(* Configurations over time (Model/CharsetConfig.v: the five setters, Transport.Clone / Client.Clone, the
+   caller re-using the slice it passed): a configuration is a value.  An operation that is not addressed
+   to transport j leaves j's configuration alone ... *)
+Theorem C15_config_frame :
+  forall st op j,
+    j < length st -> targets j op = false -> nth_error (apply_op st op) j = nth_error st j.
+Proof. exact apply_op_frame. Qed.
+Print Assumptions C15_config_frame.
+
+(* ... a clone starts with exactly its source's configuration and keeps it whatever the original - or
+   any other transport - is told afterwards; the original keeps its own whatever the clone is told *)
+Theorem C15_clone_independent :
+  forall st i d ops,
+    nth_error st i = Some d ->
+    forallb (fun op => negb (targets (length st) op)) ops = true ->
+    nth_error (run_ops (apply_op st (OpClone i)) ops) (length st) = Some d.
+Proof. exact clone_independent. Qed.
+Print Assumptions C15_clone_independent.
+
+Theorem C15_clone_source_independent :
+  forall st i d ops,
+    nth_error st i = Some d ->
+    forallb (fun op => negb (targets i op)) ops = true ->
+    nth_error (run_ops (apply_op st (OpClone i)) ops) i = Some d.
+Proof. exact source_independent. Qed.
+Print Assumptions C15_clone_source_independent.
+
+(* ... hence the reader a transport installs for a response (and with it, by the theorems above, every
+   byte it delivers) depends on the operations addressed to that transport only *)
+Theorem C15_decide_depends_on_own_configuration :
+  forall (enc : Type) (parse_ct : bytes -> ct_parse) (lookup_charset : bytes -> option enc)
+         st ops j resp_ce ct,
+    j < length st -> forallb (fun op => negb (targets j op)) ops = true ->
+    decide_of parse_ct lookup_charset (run_ops st ops) j resp_ce ct =
+    decide_of parse_ct lookup_charset st j resp_ce ct.
+Proof. exact (@decide_frame). Qed.
+Print Assumptions C15_decide_depends_on_own_configuration.
+
+(* the model of configurations was written against exactly these source texts (gosync) *)
+Theorem C15_configuration_code_pinned :
+  exists body, In (bs "Clone:key-values", body) decode_setters /\
+               body = bs "disableAutoDecode: t.disableAutoDecode; autoDecodeContentType: t.autoDecodeContentType".
+Proof. exact clone_key_values_pinned. Qed.
+Print Assumptions C15_configuration_code_pinned.
 
 (* The pinned (pre-fix) peekRead violates two_results_only in three ways; witnesses kept checked
    (toy two-byte charset so that they are closed and computable). *)
